@@ -16,6 +16,7 @@ import (
 	"github.com/hashicorp/raft"
 	"github.com/rqlite/rqlite/v10/internal/fsutil"
 	"github.com/rqlite/rqlite/v10/internal/rsync"
+	"github.com/rqlite/rqlite/v10/internal/verifhook"
 	"github.com/rqlite/rqlite/v10/snapshot/plan"
 )
 
@@ -254,6 +255,9 @@ func NewStore(dir string) (*Store, error) {
 		observers:      newObserverSet(),
 		logger:         logger,
 		fatalFn: func(err error) {
+			if verifhook.Fatal("snapshot.store.integrity", err) {
+				return
+			}
 			logger.Fatalf("fatal snapshot integrity error, exiting process: %s", err)
 		},
 	}
